@@ -856,6 +856,25 @@ def shape_tree_recycle_overlap():
     }
 
 
+def shape_warning_optional_revert():
+    """A build that ends with nothing but a warning (a pattern matches files that nothing declares) is a
+    complete build: an optional step that lost its last consumer is reverted and its output removed."""
+    head = [["static", ["s1.txt"]], ["glob", "notes/*.md"],
+            ["step", "OPT", {"need": "OPTIONAL", "inp": ["s1.txt"], "out": ["mid.txt"]}]]
+    return {
+        "name": "warning_optional_revert",
+        "sources": {"plan.py": ["v1", "v2"], "notes/n1.md": ["a", "b"], "s1.txt": ["a", "b"]},
+        "scripts": {
+            "./plan.py": {
+                "on": "plan.py",
+                "versions": {"v1": head + [["step", "USE", {"inp": ["mid.txt"], "out": ["out.txt"]}]], "v2": head},
+            },
+            "OPT": GENERIC_WORKER,
+            "USE": GENERIC_WORKER,
+        },
+    }
+
+
 def shape_resources():
     return {
         "name": "resources",
@@ -910,6 +929,7 @@ SHAPES = {
         shape_optional_consumer_dropped,
         shape_glob_nodeless,
         shape_tree_recycle_overlap,
+        shape_warning_optional_revert,
         shape_resources,
     )
 }
